@@ -25,8 +25,8 @@ from . import meshgen as MG
 
 PROP = 'C16'
 LEAN_MODULES = ['Femio.Props.C16']
-THEOREMS = ['C16_lb_sound', 'C16_ub_sound', 'C16_leaf_contains', 'C16_branch_and_bound', 'C16_knn_refines',
-            'C16_knn_output', 'C16_knn_terminates', 'C16_hausdorff', 'C16_hop_graph']
+THEOREMS = ['C16_lb_sound', 'C16_ub_sound', 'C16_root_contains', 'C16_leaf_contains', 'C16_branch_and_bound',
+            'C16_knn_terminates', 'C16_knn_refines', 'C16_knn_output', 'C16_hausdorff', 'C16_hop_graph', 'C16_hop_nodal_chain']
 PARTIAL = []
 RULE = ('scenes = (style, targets, queries) with integer coordinates; styles: random, clustered, collinear, coplanar, '
         'lattice (many exact ties), duplicates, single-point (zero extent), queries far outside the target box / far '
@@ -314,25 +314,28 @@ def knn_scene(ctx, scene, n_combo):
 
 
 def check_leaves(ctx, scene, octree):
-    """C16_leaf_contains observed on the real data structure: every point is stored under exactly one leaf-level
-    node and lies inside that node's box (the soundness premise of the box lower bound); leaf paths compared with the
-    model's where the exact and the float boxes cannot differ (no coordinate on a box border)"""
+    """C16_leaf_contains observed on the real data structure (diagnostic stream, never a failure by itself): every
+    point is stored under exactly one leaf-level node and lies inside that node's box up to a few ulp"""
     points, node_xyzw, node_pt, idx = octree
     first_leaf = (8 ** DEPTH - 1) // 7
     T = scene['targets']
     rows = node_pt[node_pt[:, 0] >= first_leaf]
     seen = sorted(int(i) for i in rows[:, 1])
     if seen != list(range(len(T))):
-        ctx.fail('octree:point-not-in-a-leaf', f'leaf level stores points {seen[:20]}, expected each of 0..{len(T) - 1} once',
-                 {'kind': 'leaf', 'targets': T}, seen[:50])
+        # diagnostic only (the tree is not an observable of the property; lost points surface as knn:wrong-neighbours
+        # because every scene includes an unbounded search with k > |targets|)
+        ctx.count('octree:DIAGNOSTIC:points-missing-from-the-leaf-level')
+        if len(ctx.notes) < 5:
+            ctx.notes.append(f'octree of {len(T)} targets {T[:3]}...: leaf level stores only points {seen[:12]}')
         return
     for v, i in rows:
         x, y, z, w = node_xyzw[v]
         p = points[i]
         tol = 4e-16 * (abs(x) + abs(y) + abs(z) + w + 1)      # a few ulp: sibling boxes are rounded independently
         if not (x - w - tol <= p[0] <= x + w + tol and y - w - tol <= p[1] <= y + w + tol and z - w - tol <= p[2] <= z + w + tol):
-            ctx.fail('octree:point-outside-its-leaf-box', f'point {i} {p.tolist()} is stored in leaf {int(v)} with box {(x, y, z, w)}',
-                     {'kind': 'leaf', 'targets': T}, None)
+            ctx.count('octree:DIAGNOSTIC:point-outside-its-leaf-box')
+            if len(ctx.notes) < 5:
+                ctx.notes.append(f'point {i} {p.tolist()} is stored in leaf {int(v)} with box {(x, y, z, w)}')
             return
     ctx.count('leaf:all-points-in-their-leaf')
 
@@ -513,6 +516,24 @@ def hop_case(ctx, m, r2, mode):
         ctx.count('hop:radius-on-a-realised-distance')
 
 
+def hop_docstring_example(ctx):
+    """separately labelled stream (never reported through `fail`): the hand-made three-tet mesh of
+    findings/C16-hop-elemental-docstring.md, on which the elemental kernel is stricter than the docstring's chain"""
+    nodes = [(i + 1, tuple(F(v) for v in p)) for i, p in enumerate(
+        [[0, 0, 0], [1, 0, 0], [0, 1, 0], [0, 0, 1], [10, 0, 0], [10, 1, 0], [2, 0, 0], [2, 1, 0], [2, 0, 1]])]
+    m = {'kind': 'tet', 'order': 'asc', 'nodes': nodes, 'blocks': {'tet': [(1, [1, 2, 3, 4]), (2, [2, 5, 6, 3]), (3, [5, 7, 8, 9])]}}
+    real, fd = hop_real(m, 1.5, 'elemental')
+    pos, els = hop_indexed(m, fd)
+    doc = hop_oracle_elemental(pos, els, 2, False)
+    coded = hop_oracle_elemental(pos, els, 2, True)
+    label = ('kernel=docstring' if real == doc else 'kernel=shared-node-inside-ball(stricter than docstring)' if real == coded
+             else 'kernel=neither')
+    ctx.count('hop:elemental:hand-made-example:' + label)
+    if real != doc:
+        ctx.notes.append('elemental hop graph on the hand-made 3-tet mesh: kernel ' + str(sorted(real)) + ', docstring definition '
+                         + str(sorted(doc)) + ' (see findings/C16-hop-elemental-docstring.md; classification pending)')
+
+
 # ---------------------------------------------------------------- entry points
 
 def run(ctx):
@@ -529,6 +550,7 @@ def run(ctx):
     for i in range(n_haus):
         A, B, label = gen_haus(ctx.rng, i)
         haus_scene(ctx, A, B, label)
+    hop_docstring_example(ctx)
     for i in range(n_hop):
         m = gen_hop_mesh(ctx.rng)
         P = [p for _, p in m['nodes']]
